@@ -1,0 +1,22 @@
+//go:build verif
+
+// Contracts for package db, checked by /verif (govc). Comment-only file: with the
+// verif tag off it is not part of the build, with it on it adds only this package clause.
+package db
+
+// The VAA store is viewed through a ghost map from vaa.VAAID values to bytes
+// (stored / storedBytes); the badger key encoding behind it is the subject of C12.
+//@ pure idOf(v *vaa.VAA) = struct("vaa.VAAID", v.EmitterChain, v.EmitterAddress, v.TargetChain, v.Sequence)
+
+//@ func (d *Database) GetSignedVAABytes(id vaa.VAAID) (b []byte, err error)
+//@   assume-contract
+//@   ensures [found] err == nil ==> stored(d, id) && b == storedBytes(d, id)
+//@   ensures [not-found] err == ErrVAANotFound ==> !stored(d, id)
+
+//@ func (d *Database) StoreSignedVAA(v *vaa.VAA) (err error)
+//@   assume-contract
+//@   requires [signed] v != nil && len(v.Signatures) > 0
+//@   ensures [stored] err == nil ==> stored(d, idOf(v)) && vaa.encodes(storedBytes(d, idOf(v)), v)
+//@   ensures [failed-unchanged] err != nil ==> storeUnchanged(d)
+//@   ensures [others] storeUnchangedExcept(d, idOf(v))
+//@   modifies lib:db.store
